@@ -38,6 +38,7 @@ NoLim == -1
 AddrsDef == [p \in Peers |-> IF p = "p1" THEN {"p1a", "p1b"} ELSE IF p = "p2" THEN {"p2a", "p2b"} ELSE {"p3a"}]
 AddrsOne == [p \in Peers |-> IF p = "p1" THEN {"p1a"} ELSE IF p = "p2" THEN {"p2a"} ELSE {"p3a"}]
 NoFixed == {}
+FixedNow == {"hdial-refused-silently"}
 LimNone == {<<NoLim, NoLim>>}
 LimSmall == {<<1, 1>>, <<0, 1>>, <<1, 0>>}
 LimMixed == {<<NoLim, NoLim>>, <<1, 1>>, <<2, 1>>, <<0, NoLim>>}
@@ -109,8 +110,12 @@ OnClosed(s, c) ==
 DialBody(p, stim, swallow) ==
   IF Full(limOut, MaxOut) THEN
        /\ UNCHANGED <<mvars>>
-       /\ kf' = IF swallow THEN kf \cup {"hdial-refused-silently"} ELSE kf
-       /\ Handle(stim, <<>>, <<>>, IF swallow THEN "ok" ELSE "err")
+       /\ kf' = IF swallow /\ "hdial-refused-silently" \notin Fixed THEN kf \cup {"hdial-refused-silently"} ELSE kf
+       \* the refusal of a protocol-initiated dial is reported to the protocols as a dial failure
+       /\ Handle(stim, <<>>,
+                 IF swallow /\ "hdial-refused-silently" \in Fixed
+                   THEN <<[k |-> "proto_dial_failure", peer |-> p, cid |-> -1, addrs |-> <<>>]>> ELSE <<>>,
+                 IF swallow THEN "ok" ELSE "err")
   ELSE IF ps[p].k = "conn" THEN
        /\ UNCHANGED <<mvars, kf>> /\ Handle(stim, <<>>, <<>>, IF swallow THEN "ok" ELSE "err")
   ELSE IF InProgress(p) THEN
@@ -173,7 +178,8 @@ TDialFail(c) ==
      /\ IF c \in pend THEN
              /\ pend' = pend \ {c}
              /\ ps' = [ps EXCEPT ![p] = OnDialFailure(@, c)]
-             /\ Handle(stim, <<>>, <<[k |-> "dial_failure", cid |-> c, addrs |-> caddrs[c]]>>, "none")
+             /\ Handle(stim, <<>>, <<[k |-> "dial_failure", cid |-> c, addrs |-> caddrs[c]],
+                                      [k |-> "proto_dial_failure", peer |-> p, cid |-> -1, addrs |-> caddrs[c]]>>, "none")
         ELSE UNCHANGED <<pend, ps>> /\ Handle(stim, <<>>, <<>>, "none")
 
 \* ConnectionEstablished for connection c with peer p
@@ -275,7 +281,8 @@ TOpenFail(c) ==
      /\ tx' = [tx EXCEPT ![c] = "failed"]
      /\ UNCHANGED <<cpeer, cdir, caddrs, limIn, limOut, next, known, kf>>
      /\ Handle([a |-> "open_fail", c |-> c, p |-> p], <<>>,
-               <<[k |-> "open_failure", cid |-> c, addrs |-> caddrs[c]]>>, "none")
+               <<[k |-> "open_failure", cid |-> c, addrs |-> caddrs[c]],
+                 [k |-> "proto_dial_failure", peer |-> p, cid |-> -1, addrs |-> caddrs[c]]>>, "none")
 
 TInbound ==
   /\ next < MaxCid
